@@ -310,3 +310,76 @@ Proof.
   intros e thr range F n C S k Ht HF HC Hi Hn Hrun. apply Hn.
   exact (poly_model_intended e thr range F n C S k Ht HF HC Hi Hrun).
 Qed.
+
+(* ------------------------------------------------------------------ *)
+(** * The sets the oracle tries: G, G plus a defeated argument, the empty set *)
+
+Lemma compact_af_wf : forall F n, compact_af F n -> wf F.
+Proof.
+  intros [A T] n [HA HT]. cbn [args atts] in *. subst A. exact (wf_compact n T HT).
+Qed.
+
+Lemma basep_cfs : forall b F S, basep b F S -> cfs F S.
+Proof.
+  intros b F S H. destruct b; cbn [basep] in H.
+  - exact H.
+  - destruct H as [Hi [Hc _]]. split; assumption.
+  - destruct H as [[Hi [Hc _]] _]. split; assumption.
+  - destruct H as [Hi [Hc _]]. split; assumption.
+Qed.
+
+Lemma basep_lfp : forall b F, b <> BSt -> basep b F (lfp F).
+Proof.
+  intros b F Hb. destruct b; cbn [basep].
+  - destruct (lfp_adm F) as [Hi [Hc _]]. split; assumption.
+  - apply lfp_adm.
+  - apply lfp_co.
+  - exfalso. apply Hb. reflexivity.
+Qed.
+
+Lemma basep_lfp_stable : forall b F, g_stableb F = true -> basep b F (lfp F).
+Proof.
+  intros b F H. destruct b; try (apply basep_lfp; discriminate).
+  cbn [basep]. apply g_stableb_spec. exact H.
+Qed.
+
+Theorem poly_oracle_sets : forall e thr range F n C k,
+  1 <= thr -> compact_af F n -> enc_clauses e thr range F = Some C ->
+  (enc_base e <> BSt \/ g_stableb F = true ->
+     up_run_fuel k C (induced e n range F (lfp F)) <> UpConflict) /\
+  (enc_base e = BSt -> g_stableb F = false ->
+     up_run_fuel k C (induced e n range F (lfp F)) <> UpModel) /\
+  (forall x b, In b (lfp F) -> att F b x ->
+     up_run_fuel k C (induced e n range F (x :: lfp F)) <> UpModel) /\
+  (enc_base e = BCo ->
+     (lfp F <> [] -> up_run_fuel k C (induced e n range F []) <> UpModel) /\
+     ((exists a, In a (args F) /\ forall b, ~ att F b a) ->
+        up_run_fuel k C (induced e n range F []) <> UpModel) /\
+     (lfp F = [] -> up_run_fuel k C (induced e n range F []) <> UpConflict)).
+Proof.
+  intros e thr range F n C k Ht HF HC.
+  pose proof (compact_af_wf F n HF) as Hwf.
+  split; [|split; [|split]].
+  - intros H. apply (poly_intended_not_conflict e thr range F n C (lfp F) k Ht HF HC).
+    destruct H as [H|H]; [exact (basep_lfp _ F H)|exact (basep_lfp_stable _ F H)].
+  - intros Hb Hg Hrun.
+    pose proof (poly_model_intended e thr range F n C (lfp F) k Ht HF HC (lfp_incl_args F) Hrun) as Hs.
+    rewrite Hb in Hs. cbn [basep] in Hs. apply g_stableb_spec in Hs. rewrite Hs in Hg. discriminate.
+  - intros x b Hb Hatt Hrun.
+    assert (Hi : incl (x :: lfp F) (args F)).
+    { intros a [Ha|Ha]; [subst a; exact (proj2 (proj2 Hwf b x Hatt))|exact (lfp_incl_args F a Ha)]. }
+    pose proof (poly_model_intended e thr range F n C _ k Ht HF HC Hi Hrun) as Hs.
+    apply basep_cfs in Hs. destruct Hs as [_ Hcf].
+    apply (Hcf b x); [right; exact Hb|left; reflexivity|exact Hatt].
+  - intros Hb. split; [|split].
+    + intros Hne Hrun.
+      pose proof (poly_model_intended e thr range F n C [] k Ht HF HC (incl_nil_l _) Hrun) as Hs.
+      rewrite Hb in Hs. cbn [basep] in Hs. apply lfp_least_co in Hs.
+      destruct (lfp F) as [|a r]; [apply Hne; reflexivity|]. exact (Hs a (or_introl eq_refl)).
+    + intros [a [Ha Hun]] Hrun.
+      pose proof (poly_model_intended e thr range F n C [] k Ht HF HC (incl_nil_l _) Hrun) as Hs.
+      rewrite Hb in Hs. cbn [basep] in Hs. destruct Hs as [_ Hc].
+      apply (Hc a Ha). intros b Hba. exfalso. exact (Hun b Hba).
+    + intros He. apply (poly_intended_not_conflict e thr range F n C [] k Ht HF HC).
+      rewrite Hb. cbn [basep]. pose proof (lfp_co F) as Hco. rewrite He in Hco. exact Hco.
+Qed.
